@@ -18,7 +18,8 @@ use serde_json::json;
 use std::collections::{HashSet, VecDeque};
 
 fn fresh() -> F {
-    new_foca(id(0, 0), &Cfg { remove_down: 1000, ..Cfg::default() }, FixCodec::default(), TableHandler::new(InvMode::NewerVersion))
+    // num_indirect_probes = 1: gossip() then picks a single recipient
+    new_foca(id(0, 0), &Cfg { remove_down: 1000, fanout: 1, ..Cfg::default() }, FixCodec::default(), TableHandler::new(InvMode::NewerVersion))
 }
 
 /// All RNG-resolved runs of one event.
@@ -41,17 +42,51 @@ fn all_runs(f: &F, ev: &Ev, words: &[u32]) -> Vec<(Vec<u32>, StepOut, F)> {
     res
 }
 
+/// `gossip()` under the first `cap` RNG answers (depth-first over the menu).
+fn gossip_runs(f: &F, words: &[u32], cap: usize) -> Vec<(Vec<u32>, StepOut, F)> {
+    let mut res = Vec::new();
+    let mut stack: Vec<Vec<u32>> = vec![vec![]];
+    while let Some(script) = stack.pop() {
+        if res.len() >= cap {
+            break;
+        }
+        let mut c = f.clone();
+        let out = run_event(&mut c, &Ev::Gossip, &script);
+        if out.extra_draws > 0 && out.panic.is_none() {
+            for &w in words.iter().rev() {
+                let mut s = script.clone();
+                s.push(w);
+                stack.push(s);
+            }
+            continue;
+        }
+        res.push((script, out, c));
+    }
+    res
+}
+
 /// One probe round on the real instance: fire the probe timer, answer the
 /// Ping with the matching Ack, let the indirect-probe timer fire. Returns for
 /// every RNG outcome (pinged member, successor instance).
 fn probe_round(f: &F, words: &[u32]) -> Result<Vec<(Vec<u32>, Option<Id>, F)>, String> {
-    let tok = f.verif_snapshot().timer_token;
+    probe_round_opt(f, words, false)
+}
+
+/// `hiccup`: this round's Ping goes unanswered and its indirect-stage timer is
+/// late (it never arrives before the next round): the round is cut short.
+/// A round that FOLLOWS such a round reports IncompleteProbeCycle (documented
+/// as recoverable) and must still ping the next member.
+fn probe_round_opt(f: &F, words: &[u32], hiccup: bool) -> Result<Vec<(Vec<u32>, Option<Id>, F)>, String> {
+    let snap0 = f.verif_snapshot();
+    let tok = snap0.timer_token;
+    let after_hiccup = snap0.probe_target.is_some() && !snap0.probe_direct_ack_ok && !snap0.probe_reached_indirect_stage;
     let mut out = Vec::new();
     for (script, o, mut c) in all_runs(f, &Ev::Timer(TimerKey::ProbeRandomMember(tok)), words) {
         if let Some(p) = o.panic {
             return Err(format!("panic in probe round: {p}"));
         }
-        if !o.res.is_ok() {
+        let tolerated = after_hiccup && o.res == Res::Err(ErrKind::IncompleteProbeCycle);
+        if !o.res.is_ok() && !tolerated {
             return Err(format!("probe timer returned {:?}", o.res));
         }
         let codec = FixCodec::default();
@@ -70,6 +105,10 @@ fn probe_round(f: &F, words: &[u32]) -> Result<Vec<(Vec<u32>, Option<Id>, F)>, S
         }
         // (whatever else the probe timer may send is not this property's business)
         let target = pings.first().map(|(t, _)| *t);
+        if hiccup {
+            out.push((script, target, c));
+            continue;
+        }
         if let Some((t, n)) = pings.first() {
             // the member answers: nobody ever becomes suspect
             let me = *c.identity();
@@ -93,13 +132,16 @@ struct Key {
     members: Vec<Member<Id>>,
     cursor: usize,
     ages: Vec<(Id, u16)>,
+    /// a round cut short is pending (its target, if so)
+    pending: Option<Id>,
 }
 
 fn key_of(f: &F, ages: &[(Id, u16)]) -> Key {
     let s = f.verif_snapshot();
     let mut a = ages.to_vec();
     a.sort();
-    Key { members: s.members, cursor: s.cursor, ages: a }
+    let pending = if s.probe_direct_ack_ok || s.probe_reached_indirect_stage { None } else { s.probe_target.as_ref().map(|m| *m.id()) };
+    Key { members: s.members, cursor: s.cursor, ages: a, pending }
 }
 
 /// Start states: all histories of <= `ops` operations.
@@ -201,7 +243,13 @@ fn stable_phase(start: &F, words: &[u32], seen: &mut HashSet<u128>, deadline: st
             break;
         }
         let view = View::of(&f);
-        for (script, target, c) in probe_round(&f, words)? {
+        // every round either completes (Ack, indirect-stage timer) or, for
+        // small memberships, is cut short (Ping lost, indirect-stage timer late)
+        let mut rounds = probe_round_opt(&f, words, false)?;
+        if n <= 3 {
+            rounds.extend(probe_round_opt(&f, words, true)?);
+        }
+        for (script, target, c) in rounds {
             res.transitions += 1;
             let Some(t) = target else {
                 return Err(format!("a probe round pinged nobody although {} members are active: {}", n, view.show()));
@@ -240,6 +288,26 @@ fn stable_phase(start: &F, words: &[u32], seen: &mut HashSet<u128>, deadline: st
             if seen.insert(hash128(&key_of(&c, &a2))) {
                 res.states += 1;
                 q.push_back((c, a2));
+            }
+        }
+        // Between two probe rounds the user (or a periodic task) may gossip:
+        // the member set stays what it is, so the rotation must not notice.
+        // Bounded to small memberships and the first 8 RNG answers per call
+        // (the answers only pick the recipient).
+        if n <= 3 {
+            for (_, o, c) in gossip_runs(&f, words, 8) {
+                res.transitions += 1;
+                if o.panic.is_some() || !o.res.is_ok() {
+                    return Err(format!("gossip() failed in a stable phase: {:?} {:?}", o.res, o.panic));
+                }
+                let v2 = View::of(&c);
+                if v2.active.len() != n || v2.members.len() != view.members.len() {
+                    return Err("the member set changed during a stable phase (gossip)".into());
+                }
+                if seen.insert(hash128(&key_of(&c, &ages))) {
+                    res.states += 1;
+                    q.push_back((c, ages.clone()));
+                }
             }
         }
     }
